@@ -111,5 +111,17 @@ func runProperty(repo, root, id, tier string, seed int, replay string) (code int
 	}
 	rep.Notes = append(rep.Notes, fmt.Sprintf("program: %d packages (%d production module packages), %d module functions; helper packages outside deps(main): %v", len(p.All), len(p.Mod), len(p.ModFns), p.Outside))
 	prop.Run(&rules.Ctx{P: p, R: rep, Tier: tier})
+	if tier == "thorough" {
+		// second pass over the program as built for GOOS=windows (other build-tagged files, other branches)
+		if pw, err := prog.Load(repo, "windows"); err != nil {
+			rep.Unknown("meta", "load-windows", "-", "cannot load/type-check the repository for GOOS=windows: "+err.Error())
+		} else {
+			rep.Notes = append(rep.Notes, fmt.Sprintf("thorough: rules re-evaluated on the GOOS=windows program (%d module functions)", len(pw.ModFns)))
+			prop.Run(&rules.Ctx{P: pw, R: rep, Tier: tier})
+		}
+	}
+	if replay != "" {
+		return rep.Replay(root, replay)
+	}
 	return rep.Finish(root)
 }
